@@ -92,8 +92,12 @@ def replay_chunk(args):
             out.append((n, case, "readable page", text, "projector failed: %r" % (e,)))
             continue
         exp = proj(agg.ideal_views(beh["ideal"], meta))
+        imp = proj(agg.ideal_views(beh["impl"], meta))
+        case["obs_equals_impl_model"] = (obs == imp)
         if obs != exp:
             out.append((n, case, exp, obs, "projection of the generated page differs from the ideal"))
+        elif obs != imp:
+            out.append((n, case, imp, obs, "DRIFT"))
         else:
             out.append((n, None, None, None, None))
     return out
@@ -117,6 +121,9 @@ def replay(run, pid, res, seed, judge=lambda beh: True, limit=None):
                 beh = behs[n]
                 run.count(json.dumps(beh["prog"]) + json.dumps(beh["inc"], sort_keys=True))
                 if case is None:
+                    continue
+                if why == "DRIFT":
+                    run.drifted({"program": case["prog"], "impl_model": exp, "observed": obs})
                     continue
                 run.violation(case, exp, obs, why)
     if behs:
